@@ -5,6 +5,8 @@ From Coq Require Import Extraction ExtrOcamlBasic.
 From KV Require Import Bytes WalCodec Memtable Engine.
 From KV Require Import ReadOnly.
 From KV Require Import ApiView.
+From KV Require Import ReplProto.
+From KV Require Import BlockView.
 From KV Require Import Config.
 From KV Require Import Hist.
 From KV Require Import LockDiscipline.
@@ -34,6 +36,9 @@ Separate Extraction
   Engine.reopen Engine.run Engine.buffer_ops
   ReadOnly.start ReadOnly.step_client ReadOnly.step_repl ReadOnly.node_get ReadOnly.tx_get
   ReadOnly.node_scan ReadOnly.node_info ReadOnly.rw_open ReadOnly.any_open ApiView.api_view
+  ReplProto.sys_init ReplProto.step ReplProto.settle ReplProto.views_agree ReplProto.scan_of
+  ReplProto.idle ReplProto.good
+  BlockView.known_blocked_path BlockView.known_inversion
   Config.default_config Config.zero_config Config.field_lookup Config.kind_of Config.name_of Config.all_fields
   Config.get_int Config.get_str Config.set_int Config.set_str Config.set_ratio Config.validate Config.encode
   Config.save Config.load Config.load_bytes Config.open_db Config.no_dir Config.mkdir Config.truncate_manifest
